@@ -51,6 +51,8 @@ THEOREMS = [
     "C02_rerun_refines_queue",
     "C02_rerun_stale_memory_witness",
     "C02_two_composites_refine",
+    "C02_roundtrip_keeps_firing_order",
+    "C02_roundtrip_transposed_witness",
     "C02_macro_edges_kept",
     "C02_macro_reorders_witness",
     "C02_macro_order_repaired",
@@ -739,6 +741,24 @@ def _run_flow(case):
     idx = {id(n): i for i, n in enumerate(ns)}
     fired = []
     starts = [0]
+    trip = case.get("trip") or {}
+    trips = [0]
+
+    def round_trip():
+        """the composite goes through __getstate__ / __setstate__ (pickle): children and channels are new objects, the
+        connections are re-made from the stored label strings; everything the harness holds is re-bound by label"""
+        import pickle
+
+        nonlocal wf
+        labels = [x.label for x in ns]
+        wf = pickle.loads(pickle.dumps(wf))
+        ns[:] = [wf.children[l] for l in labels]
+        idx.clear()
+        idx.update({id(x): i for i, x in enumerate(ns)})
+        trips[0] += 1
+
+    if trip.get("wire"):
+        round_trip()
     orig_run = Node.run
     orig_starting = Composite.register_child_starting
 
@@ -854,6 +874,8 @@ def _run_flow(case):
         for i in again["heal"]:
             ns[i].failed = False
         wf.failed = False
+        if trip.get("between"):
+            round_trip()
         r = one_run()
         runs.append(r)
         obs += ["rerun", *r["obs"]]
@@ -870,6 +892,7 @@ def _run_flow(case):
         "flow_refused_runs": sum(r["refused"] for r in runs),
         "flow_with_stale_trigger_memory": 1 if case.get("pre") else 0,
         "flow_reruns_after_failure": len(runs) - 1,
+        "flow_state_round_trips": trips[0],
         f"flow_outcome:{first['outcome'].split(':')[0]}": 1,
     }
     return {"obs": obs, "outcome": first["outcome"], "exec": first["exec"], "calls": first["calls"], "outs": first["outs"],
@@ -898,14 +921,20 @@ def _flow_model_lines(case):
 
 def _flow_model_input(case):
     lines = _flow_model_lines(case)
-    again = [f"rerun {MODEL_FUEL} " + " ".join(str(i) for i in r["heal"]) for r in case.get("rerun", [])]
-    again = [a.strip() for a in again]
+    trip = case.get("trip") or {}
+    wire = ["roundtrip"] if trip.get("wire") else []
+    again = []
+    for r in case.get("rerun", []):
+        if trip.get("between"):
+            again.append("roundtrip")
+        again.append((f"rerun {MODEL_FUEL} " + " ".join(str(i) for i in r["heal"])).strip())
     if case.get("host") != "macro":
-        return lines + [f"run {MODEL_FUEL}"] + again
+        return lines + wire + [f"run {MODEL_FUEL}"] + again
     ui = f" {len(case['nodes'])}" if case.get("ui") else ""
     # the macro constructor's treatment of the hand-made wiring: as pinned, then — after `reset` — as repaired by
     # fixes/C02-macro-keep-signal-order.patch; `diff` accepts agreement with either
-    return (lines + [f"mconfig P{ui}", f"run {MODEL_FUEL}"] + again + ["reset"] + lines + [f"mconfig R{ui}", f"run {MODEL_FUEL}"] + again)
+    return (lines + [f"mconfig P{ui}"] + wire + [f"run {MODEL_FUEL}"] + again + ["reset"]
+            + lines + [f"mconfig R{ui}"] + wire + [f"run {MODEL_FUEL}"] + again)
 
 
 # ---- the oracle's plain queue interpreter (python values, identity of signals) ----------------
@@ -2014,7 +2043,12 @@ def _gen_flow(rng):
         if rng.random() < 0.35:
             case = _with_stale_memory(rng, case)
         if _valid_flow(case) and _terminates(case):
-            return _with_reruns(rng, case)
+            case = _with_reruns(rng, case)
+            if rng.random() < 0.3:
+                # a state round trip (pickle) between wiring and running and / or between a failed run and the next
+                between = bool(case.get("rerun")) and rng.random() < 0.6
+                case = {**case, "trip": {"wire": (not between) or rng.random() < 0.5, "between": between}}
+            return case
     return _tpl_chain(rng)
 
 
@@ -2096,6 +2130,12 @@ def gen_cases(rng, tier):
 
 
 def corpus():
+    # seeded change C02-4: `tick >> read; tick >> bump` with read created before bump — after a pickle round trip the newest
+    # connection must still fire first (0 = tick, 1 = read, 2 = bump: as written 0, 2, 1)
+    yield {"kind": "flow", "nodes": [_node("term", ["d", "d", "d"]) for _ in range(3)], "data": [[1, 0, 2]],
+           "sig": [[0, 0, 1, 0, "rshift"], [0, 0, 2, 0, "rshift"]], "starters": [0], "trip": {"wire": True, "between": False}}
+    yield {"kind": "flow", "host": "macro", "nodes": [_node("term", ["d", "d", "d"]) for _ in range(3)], "data": [],
+           "sig": [[0, 0, 1, 0, "connect"], [0, 0, 2, 0, "lshift"]], "starters": [0], "trip": {"wire": True, "between": False}}
     # two composites (C02 two_composites example): W = {0, 1, 2, macro 5 = {3 >> 4}}; 0 >> m >> 1; 4 >> 2 out of the running
     # macro, 1 >> 3 into the idle macro (3, 4 run depth-first and reach 2 again)
     t = lambda: _node("term", ["d", "d", "d"], cache=False)  # noqa: E731
@@ -2219,3 +2259,5 @@ def shrink_candidates(case):
             yield {k: v for k, v in case.items() if k != "pre"}
         if case.get("rerun"):
             yield {**case, "rerun": case["rerun"][:-1]}
+        if case.get("trip"):
+            yield {k: v for k, v in case.items() if k != "trip"}
